@@ -3,6 +3,7 @@ package transaction
 import (
 	"context"
 
+	"github.com/tikv/client-go/v2/config"
 	"github.com/tikv/client-go/v2/config/retry"
 	tikverr "github.com/tikv/client-go/v2/error"
 	"github.com/tikv/client-go/v2/tikvrpc"
@@ -38,8 +39,20 @@ func zzIsCommitPoint(mode int, r zzRPC) bool {
 
 // zzRunCommit builds the store, buffers one write per key and commits.
 func zzRunCommit(mode int, faults int, keys []string) *zzScenario {
+	return zzRunCommitConc(mode, faults, keys, 1)
+}
+
+// zzRunCommitConc: with concurrency > 1 the batches of one phase run on their
+// own goroutines and the script may hold a request back (engine-only: the
+// interleaving is chosen by the engine's scheduler).
+func zzRunCommitConc(mode int, faults int, keys []string, concurrency int) *zzScenario {
 	sc := &zzScenario{mode: mode, keys: keys}
 	sc.s, sc.cl = zzNewStoreTS([][]byte{[]byte("m")}, faults, true)
+	if concurrency > 1 {
+		zzEngineOnly()
+		config.UpdateGlobal(func(conf *config.Config) { conf.CommitterConcurrency = concurrency })
+		sc.cl.delays = true
+	}
 	sc.cl.onePCAllowed = true
 	sc.cl.allowFaultOn = func(cmd tikvrpc.CmdType) bool {
 		return cmd == tikvrpc.CmdPrewrite || cmd == tikvrpc.CmdCommit
@@ -112,7 +125,11 @@ func (sc *zzScenario) committed() bool {
 }
 
 func zzC03(mode int, faults int, keys []string) {
-	sc := zzRunCommit(mode, faults, keys)
+	zzC03Conc(mode, faults, keys, 1)
+}
+
+func zzC03Conc(mode int, faults int, keys []string, concurrency int) {
+	sc := zzRunCommitConc(mode, faults, keys, concurrency)
 	defer sc.close()
 	cl, err := sc.cl, sc.err
 	committed := sc.committed()
@@ -152,6 +169,17 @@ func ZZ_C03_2pc() {
 
 func ZZ_C03_async() {
 	zzC03(1, zzParam("faults", 1), []string{"a", "b", "x"})
+}
+
+// ZZ_C03_2pc_delayed: two prewrite batches in flight; one may be held back
+// while the other lands and another client's real resolver meets its lock
+// (the secondary is prewritten before the primary).
+func ZZ_C03_2pc_delayed() {
+	zzC03Conc(0, zzParam("faults", 1), []string{"a", "x"}, 2)
+}
+
+func ZZ_C03_async_delayed() {
+	zzC03Conc(1, zzParam("faults", 1), []string{"a", "x"}, 2)
 }
 
 func ZZ_C03_1pc() {
